@@ -169,7 +169,14 @@ def framing(ctx):
             ctx.check(ok, f'{gm.qualname}:split at first EOL only', r, 'split(EOL, 1)',
                       f'`{src(v)}`: not a split at the first EOL with maxsplit=1 - further lines in the same segment are lost or mis-framed', gm)
         else:
-            ctx.undecided(f'{gm.qualname}:return form', r, f'`{src(v)}` not recognised', gm)
+            splits = [c for c in ast.walk(v) if isinstance(c, ast.Call) and call_attr(c) in ('split', 'rsplit', 'partition', 'rpartition')]
+            bad = [c for c in splits if call_attr(c) in ('rsplit', 'rpartition') or
+                   (call_attr(c) == 'split' and not (len(c.args) > 1 and isinstance(c.args[1], ast.Constant) and c.args[1].value == 1))]
+            if bad:
+                ctx.bad(f'{gm.qualname}:split at first EOL only', r, f'`{src(v)}`: the input is not split at the FIRST EOL with the whole remainder kept '
+                        '- further lines received in the same segment are lost or mis-framed', gm)
+            else:
+                ctx.undecided(f'{gm.qualname}:return form', r, f'`{src(v)}` not recognised', gm)
     nm = m.method(TCPH, 'next_message', inherited=False)
     ctx.analysed(nm)
     ok = False
